@@ -407,3 +407,4 @@ func derivesFromSlice(v ssa.Value, ph *ssa.Phi, depth int) bool {
 	}
 	return false
 }
+
